@@ -6,6 +6,7 @@ import (
 	"os"
 	"path/filepath"
 	"runtime"
+	"strings"
 	"sync"
 	"testing"
 
@@ -39,8 +40,27 @@ func c12Tree(nclients int) *hx.Node {
 		hx.Dir("shared", hx.File("big.bin", 400000, 91), hx.File("mid.bin", 70000, 92), hx.File("small.bin", 300, 93), hx.Dir("sub", hx.File("x", 5, 94), hx.File("y", 4097, 95))),
 		hx.Dir("GAME", hx.File("A.BIN", 200000, 96), hx.File("B.BIN", 66000, 97), hx.Dir("SUB", hx.File("C.BIN", 3000, 98))),
 		hx.Dir("PS3ISO", hx.RawFile("e.iso", enc), hx.RawFile("e.dkey", []byte(hex.EncodeToString(c11KeyA)))),
+		c12CDs(),
 		priv,
 	)
+}
+
+// c12CDs: raw CD images inside the sector-size detection window, one per sector size: the per-connection
+// sector size must not be influenced by what other connections open at the same moment.
+func c12CDs() *hx.Node {
+	d := hx.Dir("cd")
+	for i, s := range []int{2048, 2352, 2448, 2336} {
+		n := &hx.Node{Name: fmt.Sprintf("cd%d.bin", s), Kind: "file", Size: 0x220000, Seed: uint64(7000 + i), Sparse: true, NoDefaultIslands: true,
+			Spans: [][2]int64{{0, int64(24 + 230*2448)}}}
+		sig := int64(24 + 16*s)
+		if i%2 == 0 {
+			n.Patches = []hx.Patch{{Off: sig, Data: "\x01CD001\x01\x00"}}
+		} else {
+			n.Patches = []hx.Patch{{Off: sig + 8, Data: "PLAYSTATION "}}
+		}
+		d.Children = append(d.Children, n)
+	}
+	return d
 }
 
 func c12EncObj() hx.Obj {
@@ -58,14 +78,15 @@ func genC12Client(t *rapid.T, idx int, l string) c12Client {
 	objs := []struct {
 		path string
 		size int64
-	}{{"/shared/big.bin", 400000}, {"/shared/mid.bin", 70000}, {"/shared/small.bin", 300}, {"/***DVD***/GAME", 400000}, {"/PS3ISO/e.iso", 40 * 2048}}
+	}{{"/shared/big.bin", 400000}, {"/shared/mid.bin", 70000}, {"/shared/small.bin", 300}, {"/***DVD***/GAME", 400000}, {"/PS3ISO/e.iso", 40 * 2048},
+		{"/cd/cd2048.bin", 400000}, {"/cd/cd2352.bin", 400000}, {"/cd/cd2448.bin", 400000}, {"/cd/cd2336.bin", 400000}}
 	cur := -1
 	n := rapid.IntRange(3, 25).Draw(t, l+"-n")
 	for i := 0; i < n; i++ {
 		li := fmt.Sprintf("%s-%d", l, i)
-		k := rapid.IntRange(0, 13).Draw(t, li+"-k")
+		k := rapid.IntRange(0, 14).Draw(t, li+"-k")
 		switch {
-		case cur < 0 || k == 0:
+		case cur < 0 || k == 0 || k == 13:
 			cur = rapid.IntRange(0, len(objs)-1).Draw(t, li+"-obj")
 			reqs = append(reqs, hx.Req{Op: "OPEN_FILE", Path: hx.BStr(objs[cur].path)})
 		case k <= 6:
@@ -92,8 +113,8 @@ func genC12Client(t *rapid.T, idx int, l string) c12Client {
 				hx.Req{Op: "WRITE", N: uint32(rapid.SampledFrom([]int{10, 65536, 140000}).Draw(t, li+"-wn")), Seed: rapid.Uint64Range(1, 1<<30).Draw(t, li+"-ws")})
 		case k == 10:
 			reqs = append(reqs, hx.Req{Op: rapid.SampledFrom([]string{"MKDIR", "DELETE", "RMDIR"}).Draw(t, li+"-mut"), Path: hx.BStr(priv + "/" + rapid.SampledFrom([]string{"d", "seed.bin", "e"}).Draw(t, li+"-mp"))})
-		case k == 11:
-			reqs = append(reqs, hx.Req{Op: "READ_CD", Start: uint32(rapid.IntRange(0, 10).Draw(t, li+"-cs")), Count: 1})
+		case k == 11 || (k <= 3 && strings.HasPrefix(objs[cur].path, "/cd/")):
+			reqs = append(reqs, hx.Req{Op: "READ_CD", Start: uint32(rapid.IntRange(0, 200).Draw(t, li+"-cs")), Count: uint32(rapid.IntRange(1, 4).Draw(t, li+"-cc"))})
 		case k == 12:
 			reqs = append(reqs, hx.Req{Op: "OPEN_FILE", Path: "/CLOSEFILE"})
 			cur = -1
